@@ -467,6 +467,10 @@ C16_TEXTS = [
     ("text-format-then-condition-format-fails", "nm str = Ab-1\n  !format '^[a-z]+$'\n  !condition (\"{?} != x\")", False, []),
     ("text-options-condition-format", "nm str = C-3\n  = C-3\n  = ab\n  !condition (\"{?} != x\")\n  !format '^[a-z]+$'", False, []),
     ("boolean-condition-not-equal", 'fl bool = {?f0}\n  !condition ("{?} != false")', f0, [("fl", f0)]),
+    # an imported copy carries the constraints of the original as its own: options added to the copy do not widen the original, nor vice versa
+    ("options-added-to-an-imported-copy-do-not-widen-the-original", "backup\n  {?mode}\n    = 3\nmode = {?v0}", ("in", v0, [1, 2]), [("mode", v0), ("backup.mode", 1)]),
+    ("options-added-to-an-imported-copy-hold-for-the-copy", "backup\n  {?mode}\n    = 3\nbackup.mode = {?v0}", ("in", v0, [1, 2, 3]), [("backup.mode", v0), ("mode", 1)]),
+    ("options-added-to-one-of-two-imported-copies", "a\n  {?mode}\n    = 3\nb\n  {?mode}\nb.mode = {?v0}", ("in", v0, [1, 2]), [("b.mode", v0), ("a.mode", 1)]),
 ]
 
 
@@ -586,6 +590,18 @@ C17_TEXTS += [
     ("remote-request-selecting-no-node", f"$source rem = {REMOTE}\nq float = {{rem?nope}}", True, [], [], None),
     ("remote-request-selecting-several-nodes", f"$source rem = {REMOTE}\nq float = {{rem?vegies.*}}", True, [], [], None),
 ]
+_TOL17 = ("+", ("*", 1e-4, ("abs", wb)), 1e-5)
+_GE17 = ("bounds", ("ge", ("*", wa, 100), wb), ("ge", ("*", wa, 100), ("-", wb, _TOL17)))
+_LE17 = ("bounds", ("le", ("*", wa, 100), wb), ("le", ("*", wa, 100), ("+", wb, _TOL17)))
+C17_TEXTS += [
+    # booleans that are the outcome of an expression (whatever number type the comparison worked with) are injected as the words true / false
+    ("boolean-defined-by-a-comparison-literal-numbers", 'wide bool = ("5 >= 3")\nnarrow bool = ("2 >= 3 || 1 <= 0")\nc1 bool = {?wide}\nc2 bool = {?narrow}\nt str = {?wide}\nf = {?narrow}', False,
+     [("wide", True), ("narrow", False), ("c1", True), ("c2", False), ("t", "true"), ("f", False)], [], ["wide", "narrow", "c1", "c2", "t"]),
+    ("boolean-defined-by-a-comparison", 'wide bool = ("{?a} >= {?b}")\ncw bool = {?wide}\nt str = {?wide}\nf = {?wide}', False,
+     [("wide", _GE17), ("cw", _GE17), ("f", _GE17)], [], ["wide", "cw", "t"]),
+    ("boolean-modified-by-a-comparison-then-imported", 'grp.flag = ("{?a} <= {?b} && true")\nbox\n  {?grp.flag}\nq bool = {?box.flag}', False,
+     [("grp.flag", _LE17), ("box.flag", _LE17), ("q", _LE17)], [], ["box.flag", "q"]),
+]
 ARRAYS17 = {"sliced-array-injection-then-import": [("part", [20.0, 30.0]), ("box.part", [20.0, 30.0])],
             "sliced-array-injection-then-modification": [("part", [7.0, 8.0, 9.0]), ("copy", [7.0, 8.0, 9.0])],
             "text-slice": [("last", ["b", "c"]), ("g.last", ["b", "c"])]}
@@ -702,6 +718,10 @@ C14_TEXTS = [
     ("function-modification-stating-a-unit", "len = (fn_w0) m", False, [("len", ("*", w0, 100))], [("len", "cm")]),
     ("expression-then-function-then-literal", 'len = ("{?w0} * 2 mm") mm\nlen = (fn_seven)\nlen = {?w1} m', False, [("len", ("*", w1, 100))], [("len", "cm")]),
     ("modifying-an-undefined-node-refused", "nope = 3", True, [], []),
+    # assignments inside case blocks address the same node, however many blocks came before (the internal block number grows past one digit)
+    ("inside-the-thirteenth-clause", "@case false\n  cnt = 1\n@else\n  cnt = 2\n@end\n" * 4 + "@case true\n  len = {?w0} m\n  mass float = 5 g\n@end", False,
+     [("len", ("*", w0, 100)), ("cnt", 2), ("mass", 0.005)], [("len", "cm"), ("mass", "kg")]),
+    ("inside-the-thirteenth-clause-other-dimension-refused", "@case false\n  cnt = 1\n@else\n  cnt = 2\n@end\n" * 4 + "@case true\n  len float = 5 kg\n@end", True, [], []),
 ]
 KEYWORDS14 = [("len", "float"), ("cnt", "int"), ("flag", "bool"), ("txt", "str"), ("mass", "float"), ("fixed", "float"), ("big", "int")]
 
@@ -762,6 +782,11 @@ def _(c):
 
 # ---- C13: whole texts whose data are the literals themselves (concrete; executed by the same interpreter, decided by ground evaluation) ----
 C13_TEXTS = [
+    # only the line feed ends a line: form feed, vertical tab, NEL, the Unicode line/paragraph separators, the FS/GS/RS controls and a lone
+    # carriage return are ordinary characters of a comment or a quoted string
+    ("other-separator-characters-are-content", 'box   # old\x0cnotes\n  size int = 3   # a\x85b \u2029 c\n  title str = "page one\x0cpage two"\n'
+     '  sep str = "a\u2028b\x1cc\x1dd\x1ee"   # x\x0by\n  # whole\x0bline\n  cr str = "a\rb"\n  n int = 4\n',
+     [("box.size", "int", 3, None), ("box.title", "str", "page one\x0cpage two", None), ("box.sep", "str", "a\u2028b\x1cc\x1dd\x1ee", None), ("box.cr", "str", "a\rb", None), ("box.n", "int", 4, None)]),
     ("comments-blank-lines-mixed-widths", '''
 # leading comment
 box            # group
@@ -1015,4 +1040,37 @@ def _(c):
         return dict(args=[d], env=dict(S=S))
     c.scenario("len-2m-then-len-5m", pre)
     c.ensures("agrees(val_of(result, 'x'), ('+', ('s', 'wa'), 5), S) and agrees(val_of(result, 'y'), ('/', ('s', 'wb'), 500), S) and val_of(result, 'z') == True", "expressions-use-the-size-defined-by-this-text")
+    c.no_raise()
+
+
+# ---- C19: save() leaves exactly the exported text in the file, whatever was at that path before ------------------------------------------------
+# the file system is the model pyvc/models/vfs.py (paths below /vfs/): an earlier file of ANY content -- in particular one of the same
+# length, as an earlier export of other values has -- is replaced; mode 'a' appends to it
+EXJ = "dip/config/export.py::ExportConfig"
+VFS = "<model>.vfs::FILES"
+
+
+@contract(EXJ + ".save", ["C19"], name="ExportConfig.save")
+def _(c):
+    c.bound = "the exported text and the earlier content of the file are arbitrary strings; modes 'w' (default) and 'a'; file present or not"
+
+    def mk(existing, mode):
+        def pre(b):
+            d0 = b.new(DIPC, name="t")
+            b.call(b.getattr(d0, "add_string"), "n int = 4")
+            ex = b.new(EXJ, b.call(b.getattr(d0, "parse")))
+            text, old = b.str("text"), b.str("old")
+            b.setattr(ex, "text", text)
+            files = b.vfs()
+            if existing:
+                b.setitem(files, "/vfs/out.h", old)
+            b.setitem(files, "/vfs/other.h", "untouched")
+            return dict(args=[ex, "/vfs/out.h"] + ([mode] if mode else []), env=dict(files=files, text=text, old=old, existing=existing, mode=mode or "w"))
+        return pre
+    for existing in (True, False):
+        for mode in (None, "w", "a"):
+            c.scenario(("file-exists" if existing else "no-file") + "-mode-" + (mode or "default"), mk(existing, mode))
+    c.ensures("files['/vfs/out.h'] == ((old + text) if (existing and mode == 'a') else text)", "the-file-holds-the-exported-text")
+    c.ensures("files['/vfs/other.h'] == 'untouched' and sorted(files.keys()) == ['/vfs/other.h', '/vfs/out.h']", "no-other-file-touched")
+    c.ensures("self.text == text", "the-export-keeps-its-text")
     c.no_raise()
